@@ -8,6 +8,7 @@ import Pycoin.Proofs.VMEval
 import Pycoin.Proofs.VMSigEnc
 import Pycoin.Proofs.VMEval2
 import Pycoin.Proofs.VMVerify2
+import Pycoin.Proofs.VMVerify3
 import Pycoin.Spec.Secp256k1
 /-!
 C03M — the Lean model of pycoin's script VM (`Pycoin.VM`, tied to the code by `harness/props/c03m.py`) against the
@@ -436,16 +437,62 @@ theorem C03M_step_eq (st : Consensus.State) (pc : Nat) (hpc : pc < cfg.script.le
         Agree (pc + size) (evalInstruction (stdEnv chk) cfg (absS st pc)) (specStep chk cfg st op data (pc + size)) :=
   instr_eq_all chk cfg st pc hpc hw hwp hchk hdel
 
-/-- C03.eval_eq, **every script**: `VM(script, …, initial_stack).eval_script()` and Core's `EvalScript` give the same
-verdict and, on success, the same final stack, for all scripts, initial stacks, flag sets, transaction contexts and
-both signature versions (CHECKSIG family included). -/
-theorem C03M_eval_eq (hw : hasFlag cfg.flags Gen.VM.VERIFY_MINIMALIF = true → cfg.witness = true)
+/-- `C03M_step_eq` with the deletion hypothesis spelt out: the script code after the last code separator decodes and the
+stack items are within 520 bytes -/
+theorem C03M_step_eq_walkable (st : Consensus.State) (pc : Nat) (hpc : pc < cfg.script.length)
+    (hw : hasFlag cfg.flags Gen.VM.VERIFY_MINIMALIF = true → cfg.witness = true)
+    (hwp : hasFlag cfg.flags Gen.VM.VERIFY_WITNESS_PUBKEYTYPE = true → cfg.witness = true) (hchk : ChkWF chk)
+    (hwk : Walkable (cfg.script.drop st.codeSep)) (hok : okL st.stack) :
+    match getScriptOp (cfg.script.drop pc) with
+    | none => (evalInstruction (stdEnv chk) cfg (absS st pc)).toOption = none
+    | some (op, data, _, size) =>
+        Agree (pc + size) (evalInstruction (stdEnv chk) cfg (absS st pc)) (specStep chk cfg st op data (pc + size)) :=
+  instr_eq_all chk cfg st pc hpc hw hwp hchk (fun sigs hm => delAgrees_walkable cfg st sigs hwk (fun s hs => hok s (hm s hs)))
+
+/-- C03.eval_eq for arbitrary initial stacks, under the hypothesis that signature deletion is shared along the run
+(`SigDelShared`; see `C03M_sigdel_walkable` for when it holds): same verdict, and on success the same final stack -/
+theorem C03M_eval_eq_shared (hw : hasFlag cfg.flags Gen.VM.VERIFY_MINIMALIF = true → cfg.witness = true)
     (hwp : hasFlag cfg.flags Gen.VM.VERIFY_WITNESS_PUBKEYTYPE = true → cfg.witness = true) (hchk : ChkWF chk)
     (stack : List Bytes) (hdel : SigDelShared chk cfg stack) :
     (evalScript (stdEnv chk) cfg stack).toOption.map (·.stack) =
       (Consensus.evalScript (specChk chk) stack cfg.script (Flags.ofBits cfg.flags)
         ⟨cfg.ctx.version, cfg.ctx.lockTime, cfg.ctx.sequence⟩ (if cfg.witness then .witnessV0 else .base)).toOption :=
   evalScript_eq_all chk cfg hw hwp hchk stack hdel
+
+/-- **signature deletion agrees**: pycoin's `_delete_signature` (instruction walk dropping the instructions equal to the
+canonical push of the signature; signatures taken bottom-most first) and Core's `FindAndDelete(scriptCode, CScript() << sig)`
+(top-most first) give the same script code for every signature list, whenever the instructions of the script code all
+decode and the signatures are at most 520 bytes long; and along Core's run of such a script on items within 520 bytes
+this is always so (items never exceed 520 bytes: `specStep_items`; the last code separator is an instruction boundary) -/
+theorem C03M_sigdel_walkable :
+    (∀ (st : Consensus.State) (sigs : List Bytes), Walkable (cfg.script.drop st.codeSep) → (∀ s ∈ sigs, s.length ≤ 520) →
+      DelAgrees cfg st sigs) ∧
+    (∀ stack0, okL stack0 → Walkable cfg.script → SigDelShared chk cfg stack0) :=
+  ⟨fun st sigs hw hl => delAgrees_walkable cfg st sigs hw hl,
+   fun stack0 hok hw => sigDelShared_walkable chk cfg stack0 hok hw⟩
+
+/-- a script with an undecodable instruction fails its evaluation on both sides (BAD_OPCODE at the latest when the loop
+gets there, even in a dead branch), whatever happened before — no assumption on signature deletion -/
+theorem C03M_eval_unwalkable (hw : hasFlag cfg.flags Gen.VM.VERIFY_MINIMALIF = true → cfg.witness = true)
+    (hnw : ¬ Walkable cfg.script) (stack : List Bytes) :
+    (evalScript (stdEnv chk) cfg stack).toOption = none ∧
+      (Consensus.evalScript (specChk chk) stack cfg.script (Flags.ofBits cfg.flags)
+        ⟨cfg.ctx.version, cfg.ctx.lockTime, cfg.ctx.sequence⟩ (if cfg.witness then .witnessV0 else .base)).toOption = none :=
+  evalScript_unwalkable chk cfg hw hnw stack
+
+/-- C03.eval_eq, **every script**: `VM(script, …, initial_stack).eval_script()` and Core's `EvalScript` give the same
+verdict and, on success, the same final stack, for all scripts (decodable or not, CHECKSIG family included), all initial
+stacks whose items are within `MAX_SCRIPT_ELEMENT_SIZE` (as every stack `check_solution` builds: `compile_push_data` of a
+≥ 4 GiB signature raises `struct.error`, which Core has no counterpart for), all flag sets, transaction contexts and both
+signature versions.  Remaining hypotheses: MINIMALIF / WITNESS_PUBKEYTYPE only in witness VMs (discharged in
+`C03M_verify_eq`) and `ChkWF`. -/
+theorem C03M_eval_eq (hw : hasFlag cfg.flags Gen.VM.VERIFY_MINIMALIF = true → cfg.witness = true)
+    (hwp : hasFlag cfg.flags Gen.VM.VERIFY_WITNESS_PUBKEYTYPE = true → cfg.witness = true) (hchk : ChkWF chk)
+    (stack : List Bytes) (hok : okL stack) :
+    (evalScript (stdEnv chk) cfg stack).toOption.map (·.stack) =
+      (Consensus.evalScript (specChk chk) stack cfg.script (Flags.ofBits cfg.flags)
+        ⟨cfg.ctx.version, cfg.ctx.lockTime, cfg.ctx.sequence⟩ (if cfg.witness then .witnessV0 else .base)).toOption :=
+  evalScript_eq_full chk cfg hw hwp hchk stack hok
 
 /-- C03.eval_eq for witness (BIP143) VMs: no hypothesis beyond `ChkWF` — every witness script, every initial stack,
 every flag set -/
@@ -520,18 +567,38 @@ theorem C03M_verify_tail (hchk : ChkWF chk) (c : SolCtx) (puzzle : Bytes) (flags
       (specTail (specChk chk) c.solutionScript c.witnessPy (Flags.ofBits flags) (specTx c.tx) puzzle isP2sh stackPy.length).isNone :=
   witnessTail_spec chk hchk c puzzle flags isP2sh lastFlags stackPy hcl
 
-/-- **C03.verify_eq**: `BitcoinSolutionChecker.check_solution(tx_context, flags)` succeeds exactly when Core's
-`VerifyScript(scriptSig, scriptPubKey, witness, flags)` does — for every scriptSig, scriptPubKey, witness stack, flag set
-(no restriction to the combinations Core permits) and transaction context: SIGPUSHONLY, scriptSig evaluation, stack
-copy, scriptPubKey evaluation, truth test, P2SH detection / push-only rule / redeem script, witness-program detection
-(native and P2SH-wrapped), malleation rules, v0 20/32-byte rules, P2WPKH script, 520-byte items, upgradable versions,
-CLEANSTACK, WITNESS_UNEXPECTED.  The MINIMALIF / WITNESS_PUBKEYTYPE hypothesis of `C03M_eval_eq` is discharged here from
-how `check_solution` builds its VMs. -/
-theorem C03M_verify_eq (hchk : ChkWF chk) (c : SolCtx) (flags : Nat) (hdel : VerifyDelShared chk c flags) :
+/-- `C03M_verify_eq` from the agreement of its (up to) three base-version VMs with `EvalScript` (stage form) -/
+theorem C03M_verify_eq_stages (hchk : ChkWF chk) (c : SolCtx) (flags : Nat) (hag : VerifyAgree chk c flags) :
     (checkSolution (stdEnv chk) c flags).toOption.isSome =
       (verifyScript (specChk chk) c.solutionScript c.puzzleScript c.witnessPy (Flags.ofBits flags) (specTx c.tx)).isNone :=
-  verify_eq chk hchk c flags hdel
+  verify_eq chk hchk c flags hag
+
+/-- **C03.verify_eq**: `BitcoinSolutionChecker.check_solution(tx_context, flags)` succeeds exactly when Core's
+`VerifyScript(scriptSig, scriptPubKey, witness, flags)` does — for **every** scriptSig, scriptPubKey, witness stack, flag
+set (no restriction to the combinations Core permits) and transaction context, with no hypothesis other than `ChkWF`:
+SIGPUSHONLY, scriptSig evaluation, stack copy, scriptPubKey evaluation, truth test, P2SH detection / push-only rule /
+redeem script, witness-program detection (native and P2SH-wrapped), malleation rules on the scriptSig bytes, v0 20/32-byte
+rules, P2WPKH script, 520-byte items, upgradable versions / DISCOURAGE flag, CLEANSTACK, WITNESS_UNEXPECTED.  The
+MINIMALIF / WITNESS_PUBKEYTYPE hypothesis of `C03M_eval_eq` is discharged from how `check_solution` builds its VMs, the
+item-size hypothesis from the invariant of Core's run (`spec_eval_items`). -/
+theorem C03M_verify_eq (hchk : ChkWF chk) (c : SolCtx) (flags : Nat) :
+    (checkSolution (stdEnv chk) c flags).toOption.isSome =
+      (verifyScript (specChk chk) c.solutionScript c.puzzleScript c.witnessPy (Flags.ofBits flags) (specTx c.tx)).isNone :=
+  verify_eq_full chk hchk c flags
 
 end
+
+-- non-trivial runs of both sides of `C03M_verify_eq` (the checker `demoChk` satisfies `ChkWF`, see above):
+-- a pay-to-pubkey spend with a matching signature; the same with a key the signature does not match under NULLFAIL;
+-- a native P2WSH spend of the witness script `OP_1`; the same with a non-empty scriptSig (WITNESS_MALLEATED)
+def demoPush (d : Bytes) : Bytes := UInt8.ofNat d.length :: d
+#guard (checkSolution (stdEnv demoChk) ⟨demoPush demoSig, demoPush (demoKey 7) ++ [0xac], [], ⟨0, 0, 1⟩⟩ 2049).toOption.isSome
+#guard (verifyScript (specChk demoChk) (demoPush demoSig) (demoPush (demoKey 7) ++ [0xac]) [] (Flags.ofBits 2049) ⟨1, 0, 0⟩).isNone
+#guard !(checkSolution (stdEnv demoChk) ⟨demoPush demoSig, demoPush (demoKey 8) ++ [0xac], [], ⟨0, 0, 1⟩⟩ (2049 + 16384)).toOption.isSome
+#guard !(verifyScript (specChk demoChk) (demoPush demoSig) (demoPush (demoKey 8) ++ [0xac]) [] (Flags.ofBits (2049 + 16384)) ⟨1, 0, 0⟩).isNone
+#guard (checkSolution (stdEnv demoChk) ⟨[], [0x00, 0x20] ++ Hash.sha256 [0x51], [[0x51]], ⟨0, 0, 1⟩⟩ 2049).toOption.isSome
+#guard (verifyScript (specChk demoChk) [] ([0x00, 0x20] ++ Hash.sha256 [0x51]) [[0x51]] (Flags.ofBits 2049) ⟨1, 0, 0⟩).isNone
+#guard !(checkSolution (stdEnv demoChk) ⟨[0x00], [0x00, 0x20] ++ Hash.sha256 [0x51], [[0x51]], ⟨0, 0, 1⟩⟩ 2049).toOption.isSome
+#guard !(verifyScript (specChk demoChk) [0x00] ([0x00, 0x20] ++ Hash.sha256 [0x51]) [[0x51]] (Flags.ofBits 2049) ⟨1, 0, 0⟩).isNone
 
 end Pycoin.VM
